@@ -20,8 +20,11 @@ package common
 //@   crypto.ValidPointBytes(sub(D, 0, 32)) && crypto.ValidPointBytes(sub(D, 32, 64))
 //@ spec AddrAccepts(s string) bool = strings.HasPrefix(s, MainAddressPrefix) && AddrPayloadOK(base58.DecodeOf(s[3:]))
 
+//@ -- trustpre: base58.Decode `requires [physical] len(b) <= 2^40` (no string of a terabyte exists; it only excludes integer overflow of a
+//@ -- buffer size inside Decode) is ASSUMED at the call here rather than imposed on the callers of NewAddressFromString.
 //@ func NewAddressFromString(s)
 //@   property C32
+//@   trustpre util/base58.Decode
 //@   modifies nothing
 //@   ensures [accept-iff] err == nil <==> AddrAccepts(s)
 //@   ensures [keys] err == nil ==> seq(result0.PublicSpendKey) == sub(base58.DecodeOf(s[3:]), 0, 32) && seq(result0.PublicViewKey) == sub(base58.DecodeOf(s[3:]), 32, 64)
